@@ -65,6 +65,10 @@ pub struct Scenario {
     /// position of the primary proof inside that batch
     #[serde(default)]
     pub primary_position: usize,
+    /// also exercise `Clone::clone_from` on the owning types: a narrower scratch opening / witness
+    /// that already holds a secret is overwritten with the real one
+    #[serde(default)]
+    pub use_clone_from: bool,
 }
 
 pub struct C20;
@@ -167,6 +171,10 @@ fn life_cycle(sc: &Scenario, st: &mut RunStats) -> Vec<Violation> {
         comp_seed[c] = scalar_from_seed("c20compseed", *cs, 0);
         alloc::register(comp_seed[c].as_bytes(), K_SEED);
     }
+    let scratch_secret = scalar_from_seed("c20scratch", sc.rng_seed, 0);
+    if sc.use_clone_from {
+        alloc::register(scratch_secret.as_bytes(), K_BLIND);
+    }
     let comp_params = std_params::<G>(cfg.bits, 1, cfg.ext);
     let comp_commitments: Vec<G> = (0..n_comp)
         .map(|c| G::commit(comp_params.pc_gens(), &Scalar::from((c % 2) as u64), &comp_blind[c][..cfg.ext]).unwrap())
@@ -204,6 +212,31 @@ fn life_cycle(sc: &Scenario, st: &mut RunStats) -> Vec<Violation> {
         openings.push(CommitmentOpening::new(sc.wit.values[j], r));
     }
     let witness = RangeWitness::init(openings).expect("witness");
+    if sc.use_clone_from {
+        // a one-blinding scratch opening and a one-opening scratch witness, each holding a secret,
+        // are overwritten in place with the (wider) real ones
+        let mut scratch = CommitmentOpening::new(7, {
+            let mut v = Vec::with_capacity(1);
+            v.push(scratch_secret);
+            v
+        });
+        scratch.clone_from(&witness.openings[0]);
+        let mut scratch_w = RangeWitness::init({
+            let mut o = Vec::with_capacity(1);
+            o.push(CommitmentOpening::new(9, {
+                let mut v = Vec::with_capacity(1);
+                v.push(scratch_secret);
+                v
+            }));
+            o
+        })
+        .expect("witness");
+        scratch_w.clone_from(&witness);
+        scratch_w.openings.clone_from(&witness.openings);
+        st.probe("clone_from_exercised");
+        drop(scratch);
+        drop(scratch_w);
+    }
     let witness2 = if sc.clone_witness { Some(witness.clone()) } else { None };
     let statement = RangeStatement::init(params.clone(), commitments.clone(), promises.clone(), seed).expect("statement");
     let statement2 = if sc.clone_statement { Some(statement.clone()) } else { None };
@@ -531,6 +564,7 @@ impl Check for C20 {
             seed_nonce: if with_seed { Some(rng.next_u64()) } else { None },
             zero_blind: vec![],
             same_as_prev: vec![],
+            special_blind: None,
         };
         let mut drop_order: Vec<usize> = (0..6).collect();
         rng.shuffle(&mut drop_order);
@@ -551,6 +585,7 @@ impl Check for C20 {
             drop_order,
             companions,
             primary_position: rng.usize_below(4),
+            use_clone_from: rng.chance(1, 2),
         }
     }
 
@@ -574,6 +609,11 @@ impl Check for C20 {
                 s.companions.truncate(1);
                 v.push(s);
             }
+        }
+        if sc.use_clone_from {
+            let mut s = sc.clone();
+            s.use_clone_from = false;
+            v.push(s);
         }
         if sc.clone_witness || sc.clone_statement {
             let mut s = sc.clone();
@@ -627,6 +667,7 @@ impl Check for C20 {
             "freed_blocks_scanned",
             "several_masks_recovered_in_one_batch",
             "bit_image_registered",
+            "clone_from_exercised",
             "error_return_commitment_mismatch",
             "verifier_error_return_with_masks_live",
         ]
